@@ -446,6 +446,46 @@ theorem C10_refused_request_untouched (snap : Bool) (path : List Nat) (root n : 
     (hn : nodeAt path root = some n) (hr : n.own.running = true) : submitAt snap path root = none := by
   simp [submitAt, hn, ready, hr]
 
+/-! ## (h) the executor setting of the node that was out is the local one, whatever the copy carries -/
+
+/-- Whatever the node's executor-valued attributes are when the job comes back — also after they were edited
+while the node was out — the done-callback leaves them as they are (repaired merge; leaf, shared and by-value). -/
+theorem C10_executor_edit_survives (fails : Nat → Bool) (job : Job) (n n' : Node)
+    (h : finish Cfg.repaired fails job n = some n') :
+    n'.own.exe = n.own.exe ∧ n'.own.bodyExe = n.own.bodyExe := by
+  cases job with
+  | leaf args =>
+    cases n with
+    | fn o fid =>
+      simp only [finish, Option.some.injEq] at h
+      subst h; simp only [Node.own, Own.leafRun]; split <;> exact ⟨rfl, rfl⟩
+    | comp o k l ks => simp [finish] at h
+  | shared =>
+    cases n with
+    | fn o fid => simp [finish] at h
+    | comp o k l ks =>
+      simp only [finish, Option.some.injEq] at h
+      subst h
+      have := congrArg ShapeT.top (shapeOf_run Cfg.repaired fails rfl rfl rfl rfl (.comp o k l ks) (.honour false) o.ins [])
+      cases hr : run Cfg.repaired fails (.honour false) o.ins [] (.comp o k l ks) <;>
+        simp_all [shapeOf, ShapeT.top, Own.shape, Node.own]
+  | copy snap =>
+    cases n with
+    | fn o fid => cases snap <;> simp [finish] at h
+    | comp o k l ks =>
+      have key : ∀ (l' : List (Option Ref)) (ri : List Val) (ro : Val) (st : KS),
+          (mergeOrFail Cfg.repaired o k l' [] ks ri ro st).own.exe = o.exe ∧
+          (mergeOrFail Cfg.repaired o k l' [] ks ri ro st).own.bodyExe = o.bodyExe := by
+        intro l' ri ro st
+        simp only [mergeOrFail, mergeBack, Cfg.repaired]
+        split <;> exact ⟨rfl, rfl⟩
+      cases snap with
+      | none => simp only [finish, Option.some.injEq] at h; subst h; exact key _ _ _ _
+      | some sn =>
+        cases sn with
+        | fn so sf => simp only [finish, Option.some.injEq] at h; subst h; exact key _ _ _ _
+        | comp so sk sl sks => simp only [finish, Option.some.injEq] at h; subst h; exact key _ _ _ _
+
 end PwVerif.C10
 
 #print axioms PwVerif.C10.C10_transparent
@@ -485,3 +525,4 @@ end PwVerif.C10
 #print axioms PwVerif.C10.C10_body_executor_witness
 #print axioms PwVerif.C10.C10_notdata_rerun_example
 #print axioms PwVerif.C10.C10_refused_request_untouched
+#print axioms PwVerif.C10.C10_executor_edit_survives
